@@ -124,6 +124,13 @@ def make(spec):
                 continue
             w0, g0, b = laws[q][m]
             freqs[:, q, m] = w0 * numpy.exp(-g0 * x - 0.5 * b * x * x)
+    if spec.get("dupq") and nq >= 3:
+        # a q-mesh written without symmetry reduction: the last q-point repeats the one before it (same branches, same
+        # frequencies at every volume); within the second q-point the first two branches are degenerate
+        laws[nq - 1] = list(laws[nq - 2])
+        freqs[:, nq - 1, :] = freqs[:, nq - 2, :]
+        laws[1][1] = laws[1][0]
+        freqs[:, 1, 1] = freqs[:, 1, 0]
     weights = D.weights_for(nq, spec.get("weights", "increasing"))
     qcoords = [(0.0, 0.0, 0.0)] + [(round(0.1 * q, 4), round(0.05 * q, 4), 0.5) for q in range(1, nq)]
     energies = bm3_energy(vols)
